@@ -78,6 +78,11 @@ CHECKS = {
    text="Exploration. Inputs are valid transitive tables (low-index tables of every corpus group with <= 4 generators up to index 7/8, re-validated by the harness and passed to the crate as plain data), every base row, pairs of tables of one group, and test words (all short reduced words, proptest-generated words of length <= 12 and their kernel powers u^ord(u)). Stabiliser: every returned generator fixes the base row; the subgroup they generate has exactly the table's index and the same based action (reference Todd-Coxeter over the returned words); every returned relator is trivial in G after substitution (exactly, in the regular representation, when G is finite); the presented group has order |G|/rows when finite, and otherwise the same abelianisation (BigInt SNF) and the same numbers of subgroup classes of index 1..3 as the harness's own Reidemeister-Schreier presentation. Core: transitive, relators hold, row count = order of the permutation group generated by the columns (own closure), word fixes all rows of the input <=> fixes row 0 of the core, and then fixes every core row (regular). Intersection: row count = orbit of (0,0) in the product action (own BFS), word fixes its row 0 <=> fixes row 0 of both inputs.",
    note="Trusted: reference Todd-Coxeter, Reidemeister-Schreier, SNF and brute-force class counts of the harness. Isomorphism of infinite stabilisers is decided through invariants only (as the statement says). Row-limit overruns of reference enumerations are skipped and counted.",
    design="§4 C13"),
+ "C09": dict(
+   technique="property-based testing: exhaustive small symbols + literature corpus + proptest-generated symbols up to 300 chambers; structural oracle computed from the returned edge words alone, group invariants against an independent textbook presentation (own spanning tree), reference Todd-Coxeter, SNF, brute-force subgroup-class counts",
+   text="Exploration. For every branching assignment (v <= 4, capped) on every connected enumerated D-set (dim 2 size <= 5/7, dim 3 size <= 3/4), the 20 literature symbols, proptest-generated renumbered symbols and random 2D/3D symbols up to 300 chambers, in PartialDSym and SimpleDSym: generators are numbered 1..g and each sits on its own facet pair carrying exactly its letter; the two sides of every non-mirror facet carry mutually inverse words; every edge word, relator and cone word is freely reduced and uses only letters 1..g; the set of relator classes (modulo conjugation, rotation, inversion; own normal form) equals the set of classes of (word around o)^v_o over ALL 2-orbits o including mirrors, where the word around o is traced by the harness from edge_to_word alone, and the cone set equals {(class of word around o, v_o) : v_o > 1}. Against the textbook presentation built on the harness's own spanning tree: equal abelianisation (BigInt SNF), equal numbers of subgroup classes of index <= 4 by brute force when the Tietze-simplified presentations have <= 3 generators (else index <= 3 by low-index enumeration on both), equal order when reference Todd-Coxeter finishes below 20000 rows, and order 4/K for spherical 2D symbols.",
+   note="Trusted: own tracing, relator normal form, textbook presentation, SNF, Todd-Coxeter and permutation brute force. Equality of infinite groups is decided through the invariants the statement names. An irredundant relator list is not demanded (a first version of the check did and was corrected, see DESIGN.md).",
+   design="§4 C09"),
 }
 
 NOT_YET = "check not built yet in this session (work in progress; see DESIGN.md §4 for its design)"
